@@ -8,14 +8,15 @@ PLAN = {
     "thorough": {"shards": 16, "cases": 10000, "min_nontrivial": 56000, "budget_s": 1500},
 }
 RULE = ("schemas with constant, callable and absent defaults on every field family at depth <= 3 (typed lists/dicts "
-        "wrapped, challenge defaults hashed, sub-configurations rebuilt); (1) two fresh configurations: every field "
+        "wrapped, challenge defaults hashed, sub-configurations rebuilt; ~30% of the scalar defaults are valid but not in "
+        "normal form - 'INFO', '4', ' x ' below transform_strip); (1) two fresh configurations: every field "
         "exposes its declared default, nothing is user-defined, every callable default was evaluated at least once per "
         "configuration; (2) a history of assignments (accepted and rejected), dict/Config assigned to sub-"
         "configurations, load_tree / loads of valid trees, resets, constructor keywords and in-place list/dict "
         "mutations: after each step the values AND the user-defined flag of every path (all depths, list items) are "
         "compared with a prediction computed from the state observed before the step; non-trivial = >= 1 accepted "
         "assignment, >= 1 rejected one and >= 1 reset judged; distinct = distinct (schema, history)")
-REQUIRED = ("fresh_default_checks", "callable_default_checks", "flag_maps_compared", "accepted_assignments_judged",
+REQUIRED = ("schemas_with_unnormalised_defaults", "fresh_default_checks", "callable_default_checks", "flag_maps_compared", "accepted_assignments_judged",
             "rejected_ops_judged", "resets_judged", "loads_judged")
 ASSUMPTIONS = ["in-place mutation of a default list/dict does not make it user-defined (the statement says 'assigned or "
                "loaded')", "loads that fail are not judged (their partial effect is unspecified)"]
@@ -30,12 +31,37 @@ def _add_callables(rng, node):
             ch["params"]["default_callable"] = True
 
 
+RAW_FAMILIES = ("str", "loglevel", "appmode", "int", "float", "port", "bool", "ipv4", "net", "host", "url", "bytes")
+
+
+def _add_raw_defaults(rng, node, env):
+    """Declared defaults that are valid but not a fixed point of their own validation chain ('INFO' for a
+    log level, '4' for an integer, ' x ' below transform_strip): the library exposes them as declared, and
+    neither a load nor validate() may replace them or make the field user-defined."""
+    n = 0
+    for ch in model.fields_of(node)["fields"]:
+        if ch["kind"] in ("schema", "ctype"):
+            n += _add_raw_defaults(rng, ch, env)
+        elif ch["kind"] == "field" and ch["family"] in RAW_FAMILIES and rng.random() < 0.3:
+            for _ in range(8):
+                v = gen.one_value(rng, ch, "valid", env)
+                if v is None or isinstance(v, (bytearray, tuple)) or (isinstance(v, float) and v != v):
+                    continue
+                ok, norm = model.accepts(ch, v, env)
+                if ok is True and not isinstance(norm, model.Hashed) and (type(norm) is not type(v) or norm != v):
+                    ch["params"]["default"] = v
+                    n += 1
+                    break
+    return n
+
+
 def generate(rng, ctx):
     thorough = ctx.tier == "thorough"
     schema = gen.gen_schema(rng, depth=rng.choice([1, 2, 3] if thorough else [1, 2, 2]), width=rng.choice([3, 4, 5]),
                             defaults=0.8)
-    _add_callables(rng, schema)
     env = gen.GEN_ENV
+    raw = _add_raw_defaults(rng, schema, env)
+    _add_callables(rng, schema)
     n = rng.randrange(4, 50 if thorough else 26)
     ops = history.gen_ops(rng, schema, env, n, bad=rng.choice([0.15, 0.3]))
     # more resets, and loads use valid trees only
@@ -52,7 +78,7 @@ def generate(rng, ctx):
             if nodes:
                 p, _nd = rng.choice(nodes)
                 out.append({"op": "reset", "path": p, "route": rng.choice(["parent", "dotted"])})
-    return {"schema": schema, "ops": out}
+    return {"schema": schema, "ops": out, "raw_defaults": raw}
 
 
 def abbreviate(case):
@@ -96,6 +122,8 @@ def run(case, ctx, res):
         if n < 2:
             res.viol("M-fresh", "callable-default", "callable default of %s evaluated %d time(s) for two configurations" % (path, n))
             return
+    if case.get("raw_defaults"):
+        res.count("schemas_with_unnormalised_defaults")
     # (2) the history
     acc = rej = resets = 0
     for idx, op in enumerate(case["ops"]):
